@@ -890,9 +890,15 @@ Proof. unfold h_remove_class_creator. intros Hh. lstep Hh as u Hu. lstep Hh as u
 (* (c) date criteria: the message check is the state check *)
 Lemma vb_date_criteria_valid c : vb_date_criteria c = true -> valid_date_criteria c = true.
 Proof.
-  destruct c as [|t|ds dn|n]; cbn; try reflexivity; intros Hv; apply negb_true_iff; apply Z.ltb_ge; apply Z.leb_le in Hv;
-    [change LedgerConsts.date_criteria_min_start_seconds with (-2208992400) in Hv
-    |change LedgerConsts.date_criteria_min_window_seconds with 86400 in Hv]; lia.
+  destruct c as [|t|ds dn|n]; cbn; try reflexivity; intros Hv;
+    change LedgerConsts.date_criteria_min_start_seconds with (-2208992400) in Hv;
+    change LedgerConsts.date_criteria_max_start_seconds with 253402300799 in Hv;
+    change LedgerConsts.date_criteria_start_nanos_lo with 0 in Hv;
+    change LedgerConsts.date_criteria_start_nanos_hi with 1000000000 in Hv;
+    change LedgerConsts.date_criteria_min_window_seconds with 86400 in Hv;
+    change LedgerConsts.date_criteria_max_window_seconds with 315576000000 in Hv;
+    change LedgerConsts.date_criteria_window_nanos_lo with 0 in Hv;
+    change LedgerConsts.date_criteria_window_nanos_hi with 1000000000 in Hv; lia.
 Qed.
 
 Lemma set_basket_classes_twice s x y : s <| basket_classes := x |> <| basket_classes := y |> = s <| basket_classes := y |>.
